@@ -53,10 +53,12 @@ RULES = [
  (r"^C08\|msg\|MT(210|942)\|empty-placeholder\|$", "RC-EMPTYSEQ", None),
  (r"^C11\|Field11[RS]?\|invalid-accepted\|not-six-digits$", "RC-11TRAIL", None),
  (r"^C17\|MT20[25]\|method\|.*\|119:", "RC-119", None),
- (r"^C17\|MT\d+\|method\|implied-reject-got-normal\|control$", "RC-MUR", None),
+ (r"^C17\|MT\d+\|method\|implied-(reject|return)-got-normal\|control$", "RC-MUR", None),
  (r"^C17\|consistency\|", "RC-RJT", None),
  (r"^C10\|(direct\|)?block5\|(PDE|MRF)\|dropped$", "RC-B5STRUCT", None),
  (r"^C10\|(direct\|)?block3\|43[34]\|changed$", "RC-B3SLASH", None),
+ (r"^C03\|field-not-reproduced\|(36)$", "RC-TRAIL", None),
+ (r"^C03\|field-not-reproduced\|(5[2-57]B)$", "RC-OPTB", None),
  (r"^C16\|tokenise\|position-stamps-collide\|over-65536-fields$", "RC-POS16", None),
  (r"^C05\|Field\w+\|over-accept\|blank-line$", "RC-LINES", None),
  (r"^C05\|Field\w+\|over-accept\|(control-char|nonascii)$", "RC-XCHARS", None),
